@@ -16,8 +16,11 @@
      the whole PDF object grammar, whose value is thrown away.  Modelled for values that are
      names, integers and literal strings without parentheses/backslashes inside; anything else
      gives the explicit outcome PUnmodelled (never equal to an implementation outcome).
-   Loops whose step consumes a variable number of bytes carry fuel = length of the input;
-   running out is the explicit outcome POutOfFuel, excluded by the theorems.  Definitions only. *)
+   Loops whose step consumes a variable number of bytes carry fuel = length of the input + 1
+   (one round per consumed byte and the last round, which sees the element fail and stops: on an
+   EMPTY rest that last round still has to run -- separated_list1 at the end of a truncated stream
+   returns what it has, and the `]` after it is what fails); running out is the explicit outcome
+   POutOfFuel, which Proofs/CMapParserProofs.v shows is never produced.  Definitions only. *)
 From LV Require Import Base.Bytes Model.CMap Gen.CMapC.
 
 Inductive pres (A : Type) :=
@@ -189,7 +192,7 @@ Fixpoint target_list_rest (fuel : nat) (s : bytes) : pres (list (list N)) :=
 Definition range_target_array (s : bytes) : pres (list (list N)) :=
   let* (_, r) := tag [x5b] s in
   let* (v, r1) := target_string (space0 r) in
-  let* (vs, r2) := target_list_rest (length r1) r1 in
+  let* (vs, r2) := target_list_rest (S (length r1)) r1 in
   let* (_, r3) := tag [x5d] (space0 r2) in
   POk (v :: vs) r3.
 
